@@ -101,11 +101,19 @@ def run(ctx):
         g = refgrammar.Gen(rng, kws)
         lex, lib = g.library(rng.choice([1, 2]))
         progs.append(('grammar', lex, frozenset(g.features)))
-    for i in range(25 if ctx.quick() else 400):
+    seen_kinds = set()
+    for i in range(64 if ctx.quick() else 600):
         decls, ns = units.gen_valid(rng, size=1)
-        if i % 3 == 0:
+        if i % 2 == 0:
+            # a faulty unit; the fault kinds in turn, so that every rule's answer is respelled (kinds not yet used first)
             ss = units.plant_all(decls, ns, rng)
-            if ss: decls = rng.choice(ss)[2]
+            if ss:
+                fresh = sorted({x[0] for x in ss if x[0] not in seen_kinds})
+                if not fresh:
+                    seen_kinds.clear(); fresh = sorted({x[0] for x in ss})
+                pick = rng.choice([x for x in ss if x[0] == fresh[0]])
+                seen_kinds.add(pick[0])
+                decls = pick[2]
         progs.append(('unit', unit_lex(units.print_file(decls, rng)), frozenset(['unit'])))
     cases = []
     KINDS = [('kw',), ('pk',), ('id',), ('trivia',), ('endif',), ('hex',), ('kw', 'pk', 'id', 'trivia', 'endif', 'hex')]
@@ -113,7 +121,8 @@ def run(ctx):
         canon = refgrammar.spell(lex)
         cases.append({'prog': pi, 'spelling': 'canonical', 'text': canon, 'feats': feats})
         for kinds in KINDS:
-            for rep in range(1 if len(kinds) == 1 else 3):
+            # (identifier case decides which names the analyzer's tables equate: the analysable units get more of those)
+            for rep in range((6 if src == 'unit' and kinds == ('id',) else 1) if len(kinds) == 1 else 3):
                 t = respell(rng, lex, set(kinds))
                 if t != canon:
                     cases.append({'prog': pi, 'spelling': '+'.join(kinds), 'text': t, 'feats': feats})
